@@ -1,16 +1,25 @@
-# Private alias used while developing the ISC area (size-class analyzers of
-# C07).  The coordinator merges checks/snippets/isc.json into checks/C07.py.
+# Private alias: runs only the ISC area (size-class analyzers, strategy
+# calculators, Outcomes) of C07.  The coordinator merges
+# checks/snippets/isc.json into checks/C07.py; the values here are read from
+# that snippet so the two cannot drift.
+import json
+import os
+
+_snip = json.load(open(os.path.join(os.path.dirname(os.path.abspath(__file__)), "snippets", "isc.json")))
+
 CONFIG = {
     "id": "XISC",
-    "coq_dirs": ["theories/ISC"],
-    "coq_targets": ["theories/ISC/Properties.vo", "theories/ISC/Corr.vo"],
-    "properties_files": ["theories/ISC/Properties.v"],
-    "required_theorems": [],
-    "harnesses": [
-        {"cmd": "isc", "cases_quick": 400, "cases_thorough": 16000, "shards_quick": 8, "shards_thorough": 32},
-    ],
-    "violation_kinds": ["C07:isc-"],
-    "trusted_base": [],
-    "manifest": {},
-    "assumptions": [],
+    "coq_dirs": _snip["coq_dirs"],
+    "coq_targets": _snip["coq_targets"],
+    "properties_files": _snip["properties_files"],
+    "required_theorems": _snip["required_theorems"],
+    "harnesses": _snip["harnesses"],
+    "violation_kinds": _snip["violation_kinds"],
+    "trusted_base": _snip["trusted_base"],
+    "manifest": {
+        "level_text": _snip["manifest_text_addition"],
+        "technique": "machine-checked proof in Coq + model/implementation correspondence evaluated with vm_compute",
+        "design_ref": "DESIGN.md §4 ISC",
+    },
+    "assumptions": _snip["assumptions"],
 }
